@@ -10,9 +10,6 @@ env = dict(os.environ, PYTHONPATH=os.path.join(repo, 'src'), PYTHONDONTWRITEBYTE
 env.pop('PYTEZOS_VERIF', None)
 extra = sys.argv[2:]
 p = subprocess.run(['/venv/bin/python', '-m', 'pytest', '-q', '-p', 'no:cacheprovider', '--timeout=900',
-                    '--continue-on-collection-errors', '-x' if False else '-q', f'--junitxml={junit}', '-n', '8'] + extra
-                   if False else
-                   ['/venv/bin/python', '-m', 'pytest', '-q', '-p', 'no:cacheprovider', '--timeout=900',
                     '--continue-on-collection-errors', f'--junitxml={junit}'] + extra,
                    cwd=repo, env=env, stdout=subprocess.PIPE, stderr=subprocess.STDOUT, text=True)
 passed = set()
